@@ -1,5 +1,6 @@
 """C01 -- parse -> format -> parse is a fixpoint."""
 from .common import *
+from .std import STRUCT_TEMPLATES
 from mirsym.explore import Query
 
 ID = 'C01'
@@ -107,6 +108,8 @@ def queries(tier):
         add(T, ['pkg:%s/n?b=1&d=2&f=3&h=4&j=5&l=6&' % ty, ('hole', 'h', 2), '=v'])
         add(T, ['pkg:%s/n?' % ty, ('hole', 'h', 1), '=v&b=1&d=2&F=3&h=4&J=5&l=6&n=7'])
         add(T, ['pkg:%s/n#a/b/./c/../d/' % ty, ('hole', 'h', 3), '/e//f'])
+    for parts in STRUCT_TEMPLATES(1 if thorough else 0):
+        add('String', parts)
     # several free keys: the order in which keys arrive differs between the input and its canonical string
     for T in ('String', 'Purl'):
         ty = 't' if T == 'String' else 'npm'
